@@ -681,6 +681,10 @@ PROFILES = {
 
 
 def generate(rng, profile, avoid=None):
+    if profile in ("typed", "typed-try"):
+        from gen import typed
+        seed = rng.below(1 << 62)
+        return {"src": typed.make_program(seed, profile == "typed-try"), "modules": {}, "tags": ["profile:" + profile]}
     g = G(rng, avoid)
     lines = PROFILES[profile](g)
     return g.finish(lines)
